@@ -16,7 +16,7 @@ Nothing here decides anything.  This file
     buffering (C2S),
   * encodes file contents and read results for the specification.
 """
-import datetime, importlib, json, os, signal, sys, traceback
+import datetime, importlib, json, os, select, signal, sys, time, traceback
 
 BAD = datetime.datetime(2020, 1, 1)        # a value json cannot serialise (the specification's Bad = 0)
 
@@ -191,6 +191,26 @@ class Proc(object):
         self.send(msg)
         return self.recv()
 
+    def paused_or_reply(self, timeout=120):
+        """after a write with pause_at: either the process stopped itself (SIGSTOP) at that event -> ('paused', None),
+        or the write ended before that event -> ('reply', its answer)"""
+        t0 = time.time()
+        while True:
+            r, _, _ = select.select([self.rd], [], [], 0.002)
+            if r:
+                return 'reply', self.recv()
+            pid, status = os.waitpid(self.pid, os.WUNTRACED | os.WNOHANG)
+            if pid == self.pid:
+                if os.WIFSTOPPED(status):
+                    return 'paused', None
+                self.alive = False
+                raise Died()
+            if time.time() - t0 > timeout:
+                raise Died()
+
+    def resume(self):
+        os.kill(self.pid, signal.SIGCONT)
+
     def kill(self):
         """process death: SIGKILL, nothing is flushed"""
         if self.alive:
@@ -217,6 +237,7 @@ class Proc(object):
     def stop(self):
         if self.alive:
             try:
+                os.kill(self.pid, signal.SIGCONT)       # (in case it is paused)
                 self.send({'op': 'exit'})
                 os.waitpid(self.pid, 0)
                 self.alive = False
@@ -266,7 +287,9 @@ class Local(object):
                 mod.open = _stepping_open(m.get('cuts', []), self.say, self.wait_go)
             try:
                 events = -1
-                if m.get('die_at') is not None:
+                if m.get('pause_at') is not None:
+                    events = _die_at(mod, cfg, m['pause_at'], False, pause=True)
+                elif m.get('die_at') is not None:
                     events = _die_at(mod, cfg, m['die_at'], m.get('count_only', False))
                 else:
                     mod.cfg_write(cfg)
@@ -388,15 +411,16 @@ def _stepping_open(cuts, say, wait_go):
     return opener
 
 
-def _die_at(mod, cfg, n, count_only):
+def _die_at(mod, cfg, n, count_only, pause=False):
     """run the real cfg_write and die (SIGKILL to myself) at the n-th traced event: a new line of Python
     code or a call of a builtin, anywhere below cfg_write.  count_only: run to the end and report how many
-    events there were."""
+    events there were.  pause: do not die there but stop (SIGSTOP) until the driver lets me go on (SIGCONT) -
+    or kills me."""
     state = {'k': 0}
 
     def tick():
         if not count_only and state['k'] == n:
-            os.kill(os.getpid(), signal.SIGKILL)
+            os.kill(os.getpid(), signal.SIGSTOP if pause else signal.SIGKILL)
         state['k'] += 1
 
     def tracer(frame, event, arg):
